@@ -438,3 +438,89 @@ func FlagNames(f int) string {
 	}
 	return strings.Join(s, "|")
 }
+
+// SqrtExact returns sqrt(v) for finite v >= 0, truncated with sticky, scaled for one rounding in c.
+func SqrtExact(v Val, c Ctx) Exact {
+	if v.Coef.Sign() == 0 {
+		e := v.Exp
+		if e%2 != 0 {
+			e--
+		}
+		return Exact{Neg: v.Neg, N: new(big.Int), E: e / 2}
+	}
+	do := func(k int) Exact {
+		n := new(big.Int).Set(v.Coef)
+		e := v.Exp
+		if e%2 != 0 {
+			n.Mul(n, ten)
+			e--
+		}
+		n.Mul(n, Pow10(2*k))
+		r := new(big.Int).Sqrt(n)
+		sq := new(big.Int).Mul(r, r)
+		return Exact{N: r, E: e/2 - k, Sticky: sq.Cmp(n) != 0}
+	}
+	k := c.P + 3 - (NDig(v.Coef)+1)/2 + 1
+	if k < 0 {
+		k = 0
+	}
+	r := do(k)
+	if !r.Sticky {
+		// exact root: strip nothing, but an exact value needs no further scaling
+		return r
+	}
+	adj := NDig(r.N) + r.E - 1
+	if adj < c.Emin && r.E >= c.Etiny() {
+		r = do(k + r.E - c.Etiny() + 1)
+	}
+	return r
+}
+
+// DivInt returns q = trunc(|a|/|b|) and r = |a| - q|b| on the common exponent e (b != 0).
+func DivInt(a, b Val) (q, r *big.Int, e int) {
+	x, y, e := align(a, b)
+	q, r = new(big.Int).QuoRem(x, y, new(big.Int))
+	return q, r, e
+}
+
+// QuantizeRef is the exact-integer oracle for Quantize(x, e): q = x/10^e rounded to an
+// integer by the decision table; invalid when q needs more than P digits or e (or the
+// result's adjusted exponent) is outside [Etiny, Emax].
+func QuantizeRef(x Val, e int, c Ctx) (v Val, inexact, dropped, invalid bool) {
+	var q *big.Int
+	if e <= x.Exp {
+		if x.Coef.Sign() == 0 {
+			q = new(big.Int)
+		} else {
+			if x.Exp-e > 400000 {
+				return v, false, false, true
+			}
+			q = new(big.Int).Mul(x.Coef, Pow10(x.Exp-e))
+		}
+	} else {
+		dropped = true
+		if x.Coef.Sign() == 0 {
+			q = new(big.Int)
+		} else if e-x.Exp > NDig(x.Coef)+1 {
+			// everything is discarded and the discarded part is below one half
+			q = new(big.Int)
+			inexact = true
+			if roundUp(c.Mode, q, -1, x.Neg) {
+				q.SetInt64(1)
+			}
+		} else {
+			m := Pow10(e - x.Exp)
+			rem := new(big.Int)
+			q, rem = new(big.Int).QuoRem(x.Coef, m, rem)
+			if rem.Sign() != 0 {
+				inexact = true
+				half := new(big.Int).Lsh(rem, 1).Cmp(m)
+				if roundUp(c.Mode, q, half, x.Neg) {
+					q.Add(q, one)
+				}
+			}
+		}
+	}
+	invalid = (c.P > 0 && NDig(q) > c.P) || e < c.Etiny() || e > c.Emax || (q.Sign() != 0 && e+NDig(q)-1 > c.Emax)
+	return Val{Neg: x.Neg, Coef: q, Exp: e}, inexact, dropped, invalid
+}
